@@ -33,7 +33,9 @@ TrSetNodeWeight == IsEv("set_node_weight") /\ Is("matrix") /\ MxSetNodeWeight(Ev
 TrClearEdges == IsEv("clear_edges") /\ ClearEdges /\ Bind
 TrClear == IsEv("clear") /\ Clear /\ Bind
 TrFromSorted == IsEv("from_sorted") /\ CsrFromSorted(Ev.edges) /\ Bind
-TrExtend == IsEv("extend") /\ Is("map") /\ MapExtend(Ev.edges) /\ Bind
+TrExtend == IsEv("extend") /\ (IF Is("map") THEN MapExtend(Ev.edges) ELSE Is("matrix") /\ MxExtend(Ev.edges)) /\ Bind
+\* add_or_update_edge grows the matrix first, so between existing nodes it is never refused
+TrAddOrUpdateEdge == IsEv("add_or_update_edge") /\ Is("matrix") /\ MxUpdateEdge(Ev.a, Ev.b, Ev.w, TRUE) /\ Bind
 TrLoad == IsEv("load") /\ Is("map") /\ MapLoad(Ev.nodes, Ev.edges) /\ Bind
 TrNoEffect == IsEv("noeffect") /\ NoEffect /\ Bind
 \* the IF makes TLC evaluate ObsOK as a state predicate (otherwise its inner disjunctions are expanded
@@ -42,7 +44,7 @@ TrObs == IsEv("obs") /\ (IF ObsOK(Ev) THEN UNCHANGED svars ELSE FALSE)
 
 TraceNext == \/ TrReset \/ TrAddNode \/ TrRemoveNode \/ TrTryAddEdge \/ TrAddEdge \/ TrUpdateEdge \/ TrTryUpdateEdge
              \/ TrRemoveEdge \/ TrTryRemoveEdge \/ TrSetEdgeWeight \/ TrSetNodeWeight \/ TrClearEdges \/ TrClear
-             \/ TrFromSorted \/ TrExtend \/ TrLoad \/ TrNoEffect \/ TrObs
+             \/ TrFromSorted \/ TrExtend \/ TrAddOrUpdateEdge \/ TrLoad \/ TrNoEffect \/ TrObs
 TraceSpec == TraceInit /\ [][TraceNext]_tvars
 TraceInv == WF /\ l # DbgAt
 
